@@ -417,8 +417,287 @@ def op_isolation(case: Dict[str, Any]) -> Dict[str, Any]:
     return ans
 
 
+# ---------------------------------------------------------------------------
+# input mutated after validation: an object that was built must not change when the wire object it was built from does
+# ---------------------------------------------------------------------------
+MUTATION_DEPTH = 2
+
+
+def container_positions(v: Any, path: tuple = (), depth: int = 0) -> List[tuple]:
+    out: List[tuple] = []
+    if isinstance(v, (dict, list)):
+        out.append(path)
+        if depth < MUTATION_DEPTH:
+            items = v.items() if isinstance(v, dict) else enumerate(v)
+            for k, x in items:
+                out.extend(container_positions(x, path + (k,), depth + 1))
+    return out
+
+
+def _node(v: Any, path: tuple) -> Any:
+    for p in path:
+        v = v[p]
+    return v
+
+
+def mutations_for(node: Any) -> List[str]:
+    if isinstance(node, dict):
+        kinds = ["add-key", "clear"] if node else ["add-key"]
+        if node:
+            kinds.append("delete-key")
+        if any(not isinstance(x, (dict, list)) for x in node.values()):
+            kinds.append("replace-scalar")
+        return kinds
+    kinds = ["append"]
+    if node:
+        kinds += ["clear", "delete-item"]
+        if any(not isinstance(x, (dict, list)) for x in node):
+            kinds.append("replace-scalar")
+    return kinds
+
+
+def apply_mutation(node: Any, kind: str) -> None:
+    if isinstance(node, dict):
+        if kind == "add-key":
+            node["vf-added"] = "vf-mut"
+        elif kind == "clear":
+            node.clear()
+        elif kind == "delete-key":
+            del node[next(iter(node))]
+        elif kind == "replace-scalar":
+            for k, x in node.items():
+                if not isinstance(x, (dict, list)):
+                    node[k] = "vf-mut" if not isinstance(x, str) else x + "-vf-mut"
+                    break
+    else:
+        if kind == "append":
+            node.append("vf-mut")
+        elif kind == "clear":
+            node.clear()
+        elif kind == "delete-item":
+            del node[0]
+        elif kind == "replace-scalar":
+            for i, x in enumerate(node):
+                if not isinstance(x, (dict, list)):
+                    node[i] = "vf-mut" if not isinstance(x, str) else x + "-vf-mut"
+                    break
+
+
+def path_text(path: tuple) -> str:
+    out = ""
+    for p in path:
+        out += "[]" if isinstance(p, int) else (("." if out else "") + str(p))
+    return out or "<top>"
+
+
+def _build(target: str, wire: Any) -> Any:
+    if target == "parse_message":
+        from chuk_mcp.protocol.messages.json_rpc_message import parse_message
+
+        return parse_message(wire)
+    return cls_of(target).model_validate(wire)
+
+
+def _both_dumps(x: Any) -> Dict[str, Any]:
+    import json as _json
+
+    out: Dict[str, Any] = {}
+    try:
+        out["model_dump"] = to_plain(x.model_dump(by_alias=True, exclude_none=True))
+    except Exception as e:  # noqa: BLE001
+        out["model_dump"] = {"<raised>": type(e).__name__}
+    try:
+        out["model_dump_json"] = _json.loads(x.model_dump_json(by_alias=True, exclude_none=True))
+    except Exception as e:  # noqa: BLE001
+        out["model_dump_json"] = {"<raised>": type(e).__name__}
+    return out
+
+
+EDIT_ORDER = ["replace-scalar", "delete-key", "delete-item", "add-key", "append", "clear"]
+
+
+def op_inputmut(case: Dict[str, Any]) -> Dict[str, Any]:
+    """For every container position of the wire object (depth <= 2): validate a fresh copy, snapshot both dumps, then
+    edit the INPUT there in place - replace a scalar, delete a key/item, add a key/append, finally clear - and dump the
+    same object after every edit (model_dump) and before the clear also through the JSON path.
+    -> {"ok", "edits": n, "changed": [{"position", "path_list", "mutation", "via", "path"}]} (first change per position and
+    way), plus the two-objects-from-one-input probe."""
+    target = case["target"]
+    try:
+        first = _build(target, dec(case["wire"]))
+    except Exception as e:  # noqa: BLE001
+        return {"ok": False, **exc_facts(e)}
+    if isinstance(first, list):
+        return {"ok": True, "edits": 0, "changed": [], "batch": True}
+    ans: Dict[str, Any] = {"ok": True, "edits": 0, "positions": 0, "changed": []}
+    for path in container_positions(dec(case["wire"])):
+        wire = dec(case["wire"])
+        try:
+            x = _build(target, wire)
+        except Exception as e:  # noqa: BLE001
+            ans["changed"].append({"position": path_text(path), "path_list": list(path), "mutation": "-", "via": "validate",
+                                   "path": type(e).__name__})
+            continue
+        ans["positions"] += 1
+        before = _both_dumps(x)
+        node = _node(wire, path)
+        kinds = [k for k in EDIT_ORDER if k in mutations_for(node)]
+        seen_via = set()
+
+        def check(kind, vias):
+            now = _both_dumps(x) if len(vias) > 1 else {"model_dump": to_plain(x.model_dump(by_alias=True, exclude_none=True))}
+            for via in vias:
+                if via in seen_via:
+                    continue
+                where = first_json_diff(before[via], now[via])
+                if where is not None:
+                    seen_via.add(via)
+                    ans["changed"].append({"position": path_text(path), "path_list": list(path), "mutation": kind, "via": via,
+                                           "path": _IDX.sub("[]", where)})
+
+        for kind in kinds:
+            if kind == "clear":
+                check("before-clear", ["model_dump", "model_dump_json"])
+            try:
+                apply_mutation(node, kind)
+            except Exception:  # noqa: BLE001 - e.g. nothing left to delete after an earlier edit
+                continue
+            ans["edits"] += 1
+            check(kind, ["model_dump"])
+        check("after-all-edits", ["model_dump", "model_dump_json"])
+    # two objects built from ONE wire object; the first is edited through attribute assignment and, one level down,
+    # in place in its own declared containers - the second must not change
+    wire = dec(case["wire"])
+    try:
+        a, b = _build(target, wire), _build(target, wire)
+        before = _both_dumps(b)
+        touched = _edit_own_members(a, 0, None, dec(case["wire"])) if target != "parse_message" else \
+            _edit_own_members(a, 0, None, None)
+        after = _both_dumps(b)
+        ans["sibling_edits"] = touched
+        for via in before:
+            where = first_json_diff(before[via], after[via])
+            if where is not None:
+                ans["sibling_changed"] = {"via": via, "path": _IDX.sub("[]", where)}
+                break
+    except Exception as e:  # noqa: BLE001
+        ans["sibling_exc"] = exc_facts(e)
+    return ans
+
+
+def _edit_own_members(a: Any, depth: int = 0, top: Any = None, wire: Any = None, path: tuple = ()) -> int:
+    """Edits of what a validated object owns: scalar members re-assigned, members declared as dict/list edited at their
+    outer level, nested models treated the same one level down.  Unknown members and members declared Any are left
+    alone (their values are the caller's objects by design)."""
+    n = 0
+    if not is_instance(a):
+        return 0
+    top = top if top is not None else type(a)
+    by_name = {f.name: f for f in wiregen.fields(type(a))}
+    for k, cur in list(members(a).items()):
+        if k not in by_name or cur is None:
+            continue
+        here = path + (by_name[k].wire,)
+        if isinstance(cur, (dict, list)) or is_instance(cur):
+            if wire is None or wiregen.position_kind(top, wire, here) != "declared":
+                continue
+        if isinstance(cur, dict):
+            cur["vf-own-edit"] = 1
+            n += 1
+        elif isinstance(cur, list):
+            if depth < 1:
+                for i, item in enumerate(cur):
+                    n += _edit_own_members(item, depth + 1, top, wire, here + (i,))
+            cur.append("vf-own-edit")
+            n += 1
+        elif is_instance(cur):
+            if depth < 1:
+                n += _edit_own_members(cur, depth + 1, top, wire, here)
+        else:
+            new = (not cur) if isinstance(cur, bool) else cur + 1 if isinstance(cur, (int, float)) else \
+                cur + "-vf" if isinstance(cur, str) else None
+            if new is None:
+                continue
+            try:
+                setattr(a, k, new)
+                n += 1
+            except Exception:  # noqa: BLE001 - e.g. a Literal member refuses the new value
+                pass
+    return n
+
+
+# ---------------------------------------------------------------------------
+# the library's own editing paths on a params dict that an earlier request object was built from
+# ---------------------------------------------------------------------------
+LIBEDIT_PARAMS = [
+    {"name": "t", "arguments": {"a": 1}},
+    {"name": "t", "_meta": {"k": 1}},
+    {},
+    {"cursor": "c", "nested": {"list": [1, {"x": 1}]}},
+]
+LIBEDIT_SCENARIOS = ["create_request(progress_token)", "send_message(progress_callback)", "parse_message-then-edit-raw",
+                     "JSONRPCMessage.create_request-then-edit-params"]
+
+
+def op_libedit(case: Dict[str, Any]) -> Dict[str, Any]:
+    import copy
+
+    from chuk_mcp.protocol.messages import json_rpc_message as J
+
+    scenario = LIBEDIT_SCENARIOS[case["scenario"]]
+    params = copy.deepcopy(LIBEDIT_PARAMS[case["params"]])
+    try:
+        if scenario == "parse_message-then-edit-raw":
+            raw = {"jsonrpc": "2.0", "id": "r-1", "method": "tools/call", "params": params}
+            first = J.parse_message(raw)
+        elif scenario.startswith("JSONRPCMessage"):
+            first = J.JSONRPCMessage.create_request("tools/call", params, id="r-1")
+        else:
+            first = J.create_request("tools/call", params=params, id="r-1")
+        before = _both_dumps(first)
+        if scenario == "create_request(progress_token)":
+            J.create_request("tools/call", params=params, id="r-2", progress_token="tok-1")
+        elif scenario == "send_message(progress_callback)":
+            from chuk_mcp.protocol.messages.send_message import send_message
+
+            from . import serialisers
+            from .sched import patched_uuid
+
+            async def cb(progress, total, message):
+                return None
+
+            async def main():
+                return await serialisers.with_responder(
+                    lambda rd, wr: send_message(rd, wr, "tools/call", params, timeout=5.0, progress_callback=cb),
+                    serialisers.ok_reply({"ok": True}))
+
+            with patched_uuid():
+                serialisers.on_loop(main)
+        else:
+            params["vf-added"] = 1
+            for k in list(params)[:1]:
+                if k != "vf-added":
+                    del params[k]
+        after = _both_dumps(first)
+    except Exception as e:  # noqa: BLE001
+        return {"exc": exc_facts(e)}
+    out: Dict[str, Any] = {"changed": None}
+    for via in before:
+        where = first_json_diff(before[via], after[via])
+        if where is not None:
+            b_keys = sorted((before[via].get("params") or {}).keys()) if isinstance(before[via].get("params"), dict) else None
+            a_keys = sorted((after[via].get("params") or {}).keys()) if isinstance(after[via].get("params"), dict) else None
+            out["changed"] = {"via": via, "path": _IDX.sub("[]", where), "outer_params_dict_changed": b_keys != a_keys}
+            break
+    return out
+
+
 def child_handle(case: Any) -> Any:
     op = case.get("op", "validate")
+    if op == "inputmut":
+        return op_inputmut(case)
+    if op == "libedit":
+        return op_libedit(case)
     if op == "validate":
         return op_validate(case)
     if op == "isolation":
